@@ -31,6 +31,8 @@ def props_for(files):
 def main():
     pid, n, wt, d = sys.argv[1:5]
     head = subprocess.check_output(["git", "-C", "/repo", "rev-parse", "HEAD"], text=True).strip()
+    if os.path.exists("/tmp/harm_head"):          # the commit the patches of this wave were written against
+        head = open("/tmp/harm_head").read().strip()
     sh(["git", "checkout", "-q", "--detach", head], wt)
     keep = "-e TASK.md -e TASK2.md -e TASK3.md -e TASK4.md -e TASK5.md -e OUT"
     sh("git checkout -q -- . && git clean -fdq " + keep, wt)
